@@ -136,7 +136,7 @@ CHECKS = {
   'text': 'Decides: Parse succeeds iff the grammar accepted and no critical error was counted, and never fails silently; every refusal of parser, helpers and auditors logs an error; no visitor leaves its node; '
           'every std::get / optional::value / at / stoi / substr in the analysis code is guarded, caught, or covered by a named invariant; no byte sequence can jam a scanner and unknown bytes are reported; '
           'errors of a nested analysis of another text never enter the input\'s log.',
-  'note': 'Adversarial nesting: r9 DEPTH-BOUNDED decides that the only way to the syntax tree leads through a gate that (interpreted on chains) refuses depth 4096 with a critical error while accepting ordinary and wide trees, and that the raw nodes are released iteratively (audit finding repaired: stack overflow from about 14000 levels); it does NOT decide that the stack suffices for the bound, nor the depth of trees the normaliser builds by inlining. '
+  'note': 'Adversarial nesting: r9 DEPTH-BOUNDED decides that the only way to the syntax tree leads through a gate that (interpreted on chains) refuses depth 4096 with a critical error while accepting ordinary and wide trees, and that the raw nodes are released iteratively (audit finding repaired: stack overflow from about 14000 levels); the same gate refuses a node with more children (or a token with more indices) than the 16-bit counter holds with room for the one-based component loops, does not count bracket nodes (which the generators add), and the evaluator runs only behind a test of the normalised tree (inlining multiplies nesting); four more audit findings repaired. It does NOT decide that the stack suffices for the bound. '
           'r2 also covers the Interpreter::Evaluate facade (silent refusal of the empty expression: repaired). NOT decided: resource bounds of the evaluator (set operations on lazily stored power sets enumerate them without a limit: open audit finding), behaviour of the JSON library; the throwing sites that rest on invariants confirmed by reading are listed one by one in rules/C04.py, the lock-step stacks and the last-field read of ExtractMorpho are decided structurally / by interpretation.',
  },
  'C03': {
@@ -176,7 +176,7 @@ _AS_BUILT = {
          'Principal types of whole expressions are decided per construct on a bounded universe (depth <= 2, arity <= 3), not for arbitrary nesting. Five audit findings (filter parameters skipped, recursion typed by its step, template parameters left un-instantiated by an any-typed argument, declared arguments read through stale positions) were decided by r4/r8/r9 and repaired. A second audit added four (blank definition of a derived constituent typed as a base set; tuple binder, arithmetic and ordering refusing the any type; index and parameter-shape checks skipped for the any type): the reference tables of r9, which had frozen the old treatment of the any type, were corrected first; all repaired.'),
  'C05': ('; ' + E4 + ' of the lexer base (token data) for numbers',
          ' As built: r6 ConvertTo, r7 LITERALS-REPRESENTABLE (shared C06 r9): a literal / index the token data cannot hold is refused, never wrapped into a number that prints differently.',
-         'The family is finite (quick: witness operands; thorough: all 13233 tree-grammar sentences). r8 IDENTIFIER-CLOSURE decides that every identifier the MATH lexer accepts prints to one ASCII identifier of the same kind (two audit findings repaired). Not decided: ConvertTo applied twice (arguable).'),
+         'The family is finite (quick: witness operands; thorough: all 13233 tree-grammar sentences). r8 IDENTIFIER-CLOSURE decides that every identifier the MATH lexer accepts prints to one ASCII identifier of the same kind - tried for every Greek pre-image of every ASCII keyword, indexed ones (pr<n>, Pr<n>, Fi<n>) included (three audit findings repaired). The width and bracket clauses of the round trip (a node wider than the child counter, a printed text deeper than the bound because of generated brackets) are decided by C04 r9. Not decided: ConvertTo applied twice (arguable).'),
  'C06': ('; ' + E4 + ' of LexerBase::Stream/lex/MakeToken/ParseData and TokenData::FromIndexSequence with the scanner verdict supplied',
          ' As built: r7 lexer reset (shared C18), r8 FindMinimalNode evaluated on trees, r9 TOKEN-DATA: an integer literal or index list carries exactly the numbers written or the token is refused (found the int32/int16 wrap, repaired).',
          'Trusts bison 3.8.2 for the sync comparison only. Does not decide that RE/flex reports columns in code points, nor sentences longer than the corpus shapes.'),
@@ -190,7 +190,7 @@ _AS_BUILT = {
          ' As built: r5 is the evaluated merge (every constituent copied and recorded, every mention renamed exactly once), r6 admissible table, r7 TRANSLATE-ONCE (shared C08 r8), r8 TRANSLATION-CLOSED (duplicate elimination interpreted on schemas with chains of duplicates: every erased constituent is mapped to a survivor).',
          'Correctness and type preservation of the resulting schema are value-level and not decided. r9 NO-LOOP-BY-EQUATION (precheck interpreted over the real graph code, for the dependency graph and for the term references under each term mode) and r10 ADMISSIBILITY-TOTAL (optional reads and the partial accessors of a typification guarded) decide further audit findings (repaired), r11 HANDOVER-RECREATED decides the second Execute() of a synthesis (repaired), r5 also requires that no generated name gives a dangling mention a meaning (repaired for definitions). Not decided: termination of the rewriting loop of the typification comparison; capture of a dangling *text reference* by a generated name.'),
  'C13': ('; graph closures of the interpreted CGraph (shared C14 r8); admissibility of a selection evaluated over all kinds',
-         ' As built: r6 uses the evaluated ExpandInputs/ExpandOutputs/InputsFor/Sort, r7 selection admissibility.',
+         ' As built: r6 uses the evaluated ExpandInputs/ExpandOutputs/InputsFor/Sort, r7 selection admissibility (no exemption by kind: a base set that carries a definition has inputs; finding repaired), r8 RENUMBER-FAITHFUL (ResetAliases interpreted on schemas with gaps: every mention of definitions, conventions, terms and text definitions keeps its referent, a dangling one stays dangling; two findings repaired).',
          'Preservation of correctness status and typification of each copied constituent is value-level and not decided. r8 RENUMBER-FAITHFUL (ResetAliases interpreted on schemas with gaps) decides the renumbering capture (repaired). Not decided: a base set with a definition bypasses the closure test (arguable). The stale-status finding (a loop created by an edit stays VERIFIED) is decided by C07 r6 and repaired.'),
  'C14': ('; ' + E4 + ' of all of CGraph on every graph over three items, named shapes on 4-6 items, erase/re-add/replace histories and every single further update, both visiting orders of unordered sets, against the mathematical graph',
          ' As built: r8 GRAPH-EVALUATED decides exactness of every query as data on the bounded family (membership, edges, inputs, counts, reachability incl. the diagonal, cycles, cycle groups = SCCs containing a cycle, topological order validity, closures, Sort); r1-r5, r7 recognise today\'s algorithm forms for graphs of any size and defer to r8 when the form is different but every evaluated answer is right.',
